@@ -85,6 +85,8 @@ func runAdhoc(args []string) int {
 	fs.BoolVar(&j.FSModel, "fsmodel", false, "file-system model + atom-level path contracts")
 	fs.BoolVar(&j.Wasm, "wasm", false, "compile the tinywasm variant as a second package")
 	fs.BoolVar(&j.RealParse, "realparse", false, "do not stub Parser.Parse")
+	fs.BoolVar(&j.RealScan, "realscan", false, "do not stub bufio.Scanner / strings.Reader")
+	fs.BoolVar(&j.Race, "race", false, "happens-before data-race detection")
 	fs.IntVar(&j.MaxPaths, "maxpaths", 0, "path cap (0 = none)")
 	fs.StringVar(&j.Sched, "sched", "", "goroutine scheduling policy: fifo (default), lifo, fifo-lastsel, lifo-lastsel")
 	workers := fs.Int("workers", 16, "parallel workers")
